@@ -94,7 +94,7 @@ def factory(kind, spec):
     R = spec["root"]
     if spec["chunk"]:
         ws, we = spec["chunk"]
-        par = seq_chunk_to_parent(R[ws:we], "chr", ws, we)
+        par = E.chunk_parent(R, ws, we, minus=bool(spec.get("minus_chunk")))
     else:
         par = Parent(id="chr", sequence=Sequence(R, Alphabet.NT_EXTENDED_GAPPED, id="chr", type=SequenceType.CHROMOSOME))
     ops = {"chunk2": seq_chunk_to_parent(R[2:len(R) - 2], "chr", 2, len(R) - 2),
@@ -378,7 +378,7 @@ def _spec(rnd, mode=None):
         cds, frames = None, None
         if st == "-":
             blocks = sorted(blocks, key=lambda x: (x[0], -x[1]))
-    return {"root": R, "blocks": blocks, "strand": st, "loc_strand": "." if mode == "loc-unstranded" else (st if mode == "loc-overlap" else rnd.choice([st, st, st, "."])), "cds": cds,
+    return {"minus_chunk": rnd.random() < 0.25, "root": R, "blocks": blocks, "strand": st, "loc_strand": "." if mode == "loc-unstranded" else (st if mode == "loc-overlap" else rnd.choice([st, st, st, "."])), "cds": cds,
             "frames": frames, "chunk": chunk,
             "other": [[o0, o0 + rnd.randrange(1, 6)]], "vpos": rnd.randrange(vlo, vhi)}
 
